@@ -6,6 +6,7 @@ package netsim
 // net-c17 (calls racing with Stop).
 
 import (
+	"context"
 	"fmt"
 	"math/rand"
 	"net"
@@ -435,6 +436,7 @@ func DriveC17(t *tr.W, thorough bool) {
 	c17StopDuringRebroadcast(t, rng)
 	c17RescanUpdateParked(t, rng)
 	c17StopDuringReorg(t, rng)
+	c17StopAfterCheckpointedSync(t, rng)
 	iters := 4 * tr.EnvInt("VERIF_BUDGET", 1)
 	if thorough {
 		iters *= 4
@@ -1003,4 +1005,80 @@ func c17StopDuringReorg(t *tr.W, rng *rand.Rand) {
 		}
 	}
 	t.Hit("c17.stop-during-reorg")
+}
+
+// c17StopAfterCheckpointedSync: the checkpointed cfheaders query is the batch with an idle (progress) timeout;
+// when it consists of several requests, every successful one but the last re-arms the batch's idle timer.  A client
+// that syncs block and filter headers in step only ever asks for one request at a time (cfHandler reads the block
+// tip once, right after the first headers message), so the probe restarts the client: the first run syncs block
+// headers only (its one peer does not serve filters) and is stopped; the second run, on the same data directory,
+// finds more than four checkpoint intervals of block headers and honest peers, and asks for all of them at once.
+// Stop is called once the first two intervals have been committed (or the client has converged).
+func c17StopAfterCheckpointedSync(t *tr.W, rng *rand.Rand) {
+	l := 2*2*int(wire.CFCheckptInterval) + 50 + rng.Intn(200)
+	sc := Scenario{Name: "stop-after-checkpointed-cfheaders", Len: l, ManualGate: true,
+		Peers: []Behaviour{{Kind: "noCF"}, honest(), honest()}}
+	t.Case("c17 stop-after-checkpointed-cfheaders len %d npeers 3", l)
+	s, err := New(sc, rng, t.Op)
+	if err != nil {
+		t.Op("setup", "err "+err.Error())
+		return
+	}
+	defer s.Cleanup()
+	peerLines(t, s)
+	if err := s.Start(); err != nil {
+		t.Op("start", "err "+err.Error())
+		return
+	}
+	want := fmt.Sprintf("%d:t%d", l, l)
+	hdrs := s.waitFor(15*time.Second, func(o Obs) bool { return o.BTip == want })
+	t.Op("waitheaders", map[bool]string{true: "ok", false: "timeout"}[hdrs])
+	if d := s.Stop(); d < 0 {
+		t.Op("stop", "HANG first-run")
+		return
+	}
+	t.Op("restart", "-")
+	atomic.StoreInt32(&s.closed, 0)
+	if err := s.openWith(true); err != nil {
+		t.Op("start", "err "+err.Error())
+		return
+	}
+	// (the dial gates were all opened by Stop: every listed peer can be dialled now)
+	if err := s.CS.Start(context.Background()); err != nil {
+		t.Op("start", "err "+err.Error())
+		return
+	}
+	reached := s.waitFor(20*time.Second, func(o Obs) bool {
+		if s.converged(o) {
+			return true
+		}
+		bs, err := s.CS.BestBlock()
+		return err == nil && bs.Height >= 2*int32(wire.CFCheckptInterval)
+	})
+	t.Op("cfheaders", map[bool]string{true: "two-intervals-committed", false: "not-reached"}[reached])
+	d := s.Stop()
+	if d < 0 {
+		site := "ChainService.Stop"
+		for _, g := range strings.Split(s.HangDump, "\n\n") {
+			if !strings.Contains(g, "(*ChainService).Stop") {
+				continue
+			}
+			for _, ln := range strings.Split(g, "\n") {
+				if strings.HasPrefix(ln, "github.com/lightninglabs/neutrino") {
+					f := ln[strings.LastIndex(ln, "/")+1:]
+					if i := strings.LastIndex(f, "("); i > 0 {
+						f = f[:i]
+					}
+					site = strings.TrimPrefix(strings.NewReplacer("(*", "", ")", "").Replace(f), "neutrino.")
+					break
+				}
+			}
+		}
+		t.Op("stop", "HANG "+site)
+		hangStacks(t, s.HangDump, "(*ChainService).Stop")
+	} else {
+		t.Op("stop", "ok")
+		t.Line("# stop took %d ms", d.Milliseconds())
+	}
+	t.Hit("c17.stop-after-checkpointed-cfheaders")
 }
